@@ -482,7 +482,11 @@ class Analysis:
             return self.body.ret
         return self.body.locals.get(n)
 
+    _BOXLIKE = re.compile(r'^(?:std::boxed::|alloc::boxed::)?Box<|^(?:std::ptr::|core::ptr::)?(?:Unique|NonNull)<')
+
     def field_name(self, cur_type, idx, variant):
+        if cur_type and self._BOXLIKE.match(cur_type.strip()):
+            return None                      # Box internals (Unique / NonNull / pointer): transparent
         base = strip_ref(cur_type)
         if _is_dim(base):
             return None if idx == 2 else '#%d' % idx
@@ -510,17 +514,27 @@ class Analysis:
         path = (('local', place.local),)
         cur = self.local_type(place.local)
         variant = None
+        self._last_type = cur
         for pr in place.proj:
             k = pr[0]
             if k == 'deref':
                 v = self.load(path, st)
                 if v[0] == 'ref':
                     path = v[1]
+                elif cur and self._BOXLIKE.match(cur.strip()):
+                    pass                     # Box<T> stored inline: the pointee is the place itself
                 elif v[0] == 'constref':
                     path = (('ptr', v),)
                 else:
                     path = (('ptr', v),)
-                cur = strip_ref(cur) if cur else cur
+                if cur:
+                    c0 = cur.strip()
+                    m = re.match(r'^(?:std::boxed::|alloc::boxed::)?Box<(.*)>$', c0, re.S)
+                    if m:
+                        cur = m.group(1).strip()
+                    else:
+                        m = re.match(r"^(?:&(?:'\w+ )?(?:mut )?|\*(?:const|mut) )(.*)$", c0, re.S)
+                        cur = m.group(1).strip() if m else c0
                 variant = None
             elif k == 'field':
                 name = self.field_name(cur, pr[1], variant)
@@ -549,6 +563,7 @@ class Analysis:
             elif k == 'subslice':
                 path = path + (('idx', ('sym', 'subslice:' + pr[1])),)
                 variant = None
+        self._last_type = cur
         return path
 
     # ------------------------------------------------------------------ load / store
@@ -722,7 +737,12 @@ class Analysis:
             return self.const(op[1])
         if k == 'fnitem':
             return ('fnitem', op[1])
-        return self.load(self.place_path(op[1], st), st)
+        p = self.place_path(op[1], st)
+        v = self.load(p, st)
+        lt = self._last_type
+        if lt and v[0] != 'ref' and self._BOXLIKE.match(lt.strip()) and lt.strip().startswith(('Box<', 'std::boxed::Box<', 'alloc::boxed::Box<')):
+            return ('ref', p, 'mut')         # a Box value is modelled as a reference to its inline place
+        return v
 
     _BIN = {'Add': 'add', 'Sub': 'sub', 'Mul': 'mul', 'Div': 'div', 'Rem': 'rem', 'Lt': 'lt', 'Le': 'le', 'Gt': 'gt',
             'Ge': 'ge', 'Eq': 'eq', 'Ne': 'ne', 'AddUnchecked': 'add', 'SubUnchecked': 'sub', 'MulUnchecked': 'mul',
@@ -981,6 +1001,16 @@ class Analysis:
         if last == 'abs' and len(A) == 1: return mk('abs', D(0))
         if last == 'sqrt' and len(A) == 1: return ('sqrt', D(0))
         if last == 'powi' and len(A) == 2 and A[1][0] == 'num': return ('powi', D(0), int(A[1][1]))
+        if last == 'powi' and len(A) == 2:
+            m = re.search(r'::powi::<((?:uom::typenum::)?[PN]Int<.*>)>$', c)
+            if m:
+                bits = re.findall(r'B([01])', m.group(1))
+                e = 0
+                for b_ in bits:
+                    e = e * 2 + int(b_)
+                if 'NInt' in m.group(1).split('<')[0]:
+                    e = -e
+                return ('powi', D(0), e)
         if last in ('powf', 'exp', 'ln', 'log10', 'sin', 'cos', 'floor', 'ceil', 'round', 'signum', 'rem_euclid', 'clamp', 'mul_add') :
             return ('uf', last) + tuple(self.deref_val(a, st) for a in A)
         if last in ('is_nan', 'is_finite', 'is_infinite', 'is_sign_negative', 'is_sign_positive') and len(A) == 1:
@@ -1075,7 +1105,8 @@ class Analysis:
             if last in ('map', 'and_then', 'map_or', 'map_or_else', 'unwrap_or_else', 'is_some_and') :
                 return self._opt_map(last, A, st, bb)
         # ---- Vec / slice
-        if re.match(r'^(Vec|std::vec::Vec|alloc::vec::Vec)$', owner) or owner.startswith('core::slice::<impl [') or owner.startswith('Vec::'):
+        if re.match(r'^(Vec|std::vec::Vec|alloc::vec::Vec)$', owner) or c.startswith(('core::slice::<impl [', 'std::slice::<impl [', 'slice::<impl [')) \
+                or owner in ('core::slice', 'std::slice', 'slice') or owner.startswith('Vec::'):
             if last == 'len' and len(A) == 1: return ('len', D(0))
             if last == 'is_empty' and len(A) == 1: return mk('eq', ('len', D(0)), ZERO)
             if last in ('new', 'with_capacity'): return ('uf', 'Vec::new')
